@@ -315,7 +315,30 @@ func makeInstrumentedCopyWith(dir, copyDir string, extra map[string]string) erro
 		return fmt.Errorf("instrument: %v\n%s", err, out)
 	}
 	os.WriteFile(filepath.Join(dir, "instrument.log"), out, 0o644)
+	loadSiteTable(filepath.Join(copyDir, "verifsim", "sites_gen.go"))
 	return nil
+}
+
+// siteTable maps yield site numbers of the instrumented copy to
+// "func file:line" (read back from the file the instrumenter generated); it
+// lets the evidence name the statements of go-cose no run of a check reached.
+var siteTable []string
+
+func loadSiteTable(path string) {
+	b, err := os.ReadFile(path)
+	if err != nil {
+		return
+	}
+	var t []string
+	for _, l := range strings.Split(string(b), "\n") {
+		l = strings.TrimSpace(l)
+		if strings.HasPrefix(l, "\"") && strings.HasSuffix(l, "\",") {
+			if s, err := strconv.Unquote(strings.TrimSuffix(l, ",")); err == nil {
+				t = append(t, s)
+			}
+		}
+	}
+	siteTable = t
 }
 
 type batchOutcome struct {
